@@ -19,6 +19,22 @@ def indexer_values(ss, mdl, indexer):
         opt = indexer.optional.v
         fb = indexer.fallback.v
         return [fb[k] if _isnone(opt[k]) else opt[k] for k in range(len(fb))]
+    if isinstance(indexer, BackRef):
+        # back-references: for each device of this model, the devices of the referring group / model whose index field
+        # names it - read from the referrers' data, in the order of models and devices
+        owner = indexer.owner
+        out = []
+        for k in range(owner.n):
+            mine = owner.idx.v[k]
+            lst = []
+            for rname, rm in ss.models.items():
+                if rm.n == 0 or not (rm.group == indexer.name or rm.class_name == indexer.name):
+                    continue
+                for pname, par in rm.idx_params.items():
+                    if par.model in (owner.class_name, owner.group):
+                        lst += [rm.idx.v[j] for j in range(rm.n) if not _isnone(par.v[j]) and par.v[j] == mine]
+            out.append(lst)
+        return out
     return list(indexer.v)
 
 
@@ -131,12 +147,22 @@ def run_addr(sc):
         ss, ids, ok = netbuild.build(sc["spec"], setup=False)
     for m in sc.get("collate", []):
         ss.models[m].flags.collate = True
+    for mname, pname, vals in sc.get("set_before_setup", []):
+        par = ss.models[mname].__dict__[pname]
+        for k, v in enumerate(vals[:ss.models[mname].n]):
+            par.v[k] = v
     ok = ss.setup()
     ev = []
     if not ok:
         return dict(meta=dict(tid=sc["tid"], sid=sc["sid"]), ev=[], setup_failed=True)
     ev.append(observe(ss, 1))
     pf = ss.PFlow.run()
+    if sc.get("reset"):
+        # set-up again on the same System (allowed before the simulation is initialised): the address tables must again be a
+        # bijection onto 0..n-1 / 0..m-1
+        ss.reset()
+        ev.append(observe(ss, 1))
+        pf = ss.PFlow.run()
     if pf and sc.get("tds", True) and len(ss.exist.tds) > 0:
         ss.TDS.config.no_tqdm = 1
         ss.TDS.init()
